@@ -258,6 +258,9 @@ def _formats(B, gs, ps, rng):
         mixed.append([strs[k], np.array(codes[k]), B.Pauli(g.copy(), int(p))][k % 3])
     out.append(("mixed", (mixed,)))
     out.append(("generator", ((x for x in list(strs)),)))
+    # the library's own printed form, line by line (' +XZ', ' -ZZ': blank-padded sign), and explicit '+' signs
+    out.append(("repr_lines", (repr(B.PauliList(gs.copy(), ps.copy())).split("\n"),)))
+    out.append(("plus_strings", tuple(('-' if p == 2 else '+') + O.g2s(g) for g, p in zip(gs, ps))))
     return out
 
 
